@@ -299,8 +299,19 @@ func runSession(c *fw.Ctx, sp *sessionSpec) *sessionResult {
 		return res
 	}
 	c.Count("rlpx_hello_exchanged")
-	if sp.Snappy != (sp.HelloA.Version >= p2p.VerifSnappyProtocolVersion) {
+	// An endpoint that announces a version below 5 stands for a legacy node,
+	// which never compresses; compression is in use iff both announce >= 5.
+	if sp.HelloA.Version < p2p.VerifSnappyProtocolVersion {
+		tA.SetSnappy(false)
+	}
+	if sp.HelloB.Version < p2p.VerifSnappyProtocolVersion {
+		tB.SetSnappy(false)
+	}
+	if sp.Snappy != (sp.HelloA.Version >= p2p.VerifSnappyProtocolVersion && sp.HelloB.Version >= p2p.VerifSnappyProtocolVersion) {
 		c.Inconclusive("spec_snappy_mismatch")
+	}
+	if sp.HelloA.Version != sp.HelloB.Version {
+		c.Count("rlpx_mixed_version_sessions")
 	}
 
 	// message phases
@@ -619,6 +630,13 @@ func runRLPX(c *fw.Ctx) {
 		r := c.Rand("honest", fmt.Sprint(i))
 		transport := []string{"pipe", "tcp"}[i%2]
 		sp := newSpec(r, transport, i%4 >= 2, i%3 != 0)
+		if i%6 == 1 || i%6 == 4 {
+			// the two ends announce different versions (4 vs 5): no compression
+			sp.HelloA.Version, sp.HelloB.Version, sp.Snappy = 5, 4, false
+			if i%6 == 4 {
+				sp.HelloA.Version, sp.HelloB.Version = 4, 5
+			}
+		}
 		sp.AtoB = genMsgs(r, r.Range(1, 6), 70000)
 		sp.BtoA = genMsgs(r, r.Range(0, 5), 70000)
 		id := fmt.Sprintf("rlpx-honest-%d", i)
